@@ -131,19 +131,32 @@ func (m *Monitor) onIO(ev *IOEvent) error {
 	return nil
 }
 
+// FreeVsVisible checks that no allocatable page belongs to a version that is still visible (newest state or an open reader).
+func (m *Monitor) FreeVsVisible(when string) *Fail {
+	flst := bolt.VerifFreelist(m.x.DB)
+	if flst == nil {
+		return nil
+	}
+	d := fl.VerifDump(flst)
+	for _, id := range m.visible() {
+		for _, f := range d.Free {
+			if m.PageSets[id][uint64(f)] {
+				return &Fail{Kind: "mismatch", At: -1, Msg: fmt.Sprintf("[reclaim] %s page %d is allocatable but belongs to visible version %d", when, f, id)}
+			}
+		}
+	}
+	return nil
+}
+
 // AfterBegin is the C10 oracle at writer begin: no page of a version an open reader (or the newest state) needs is free.
 func (m *Monitor) AfterBegin() *Fail {
 	if !m.C10 {
 		return nil
 	}
-	d := fl.VerifDump(bolt.VerifFreelist(m.x.DB))
-	for _, id := range m.visible() {
-		for _, f := range d.Free {
-			if m.PageSets[id][uint64(f)] {
-				return &Fail{Kind: "mismatch", At: -1, Msg: fmt.Sprintf("[c10] at writer begin page %d is allocatable but belongs to visible version %d", f, id)}
-			}
-		}
+	if f := m.FreeVsVisible("at writer begin"); f != nil {
+		return f
 	}
+	d := fl.VerifDump(bolt.VerifFreelist(m.x.DB))
 	readers := 0
 	for _, r := range m.x.Readers {
 		if r != nil {
